@@ -238,6 +238,7 @@ type Violation struct {
 	Shadow   string   `json:"shadow_state"`
 	Real     string   `json:"real_state"`
 	Dump     string   `json:"goroutines,omitempty"`
+	FoundAt  float64  `json:"found_after_s,omitempty"` // seconds into the run (set by the caller)
 }
 
 // Result of one execution.
